@@ -20,10 +20,12 @@
 (*   QMax        finite-state abstraction: a worker does not run more than *)
 (*               QMax results ahead of the collector                       *)
 (*   Outcomes    frame outcomes a worker may produce                       *)
+(*   RQMax       periodic reports are only modelled while fewer than RQMax *)
+(*               reports are pending (finite-state abstraction)            *)
 (***************************************************************************)
 EXTENDS BerStats, TLC
 
-CONSTANTS W, Target, Epochs, KeepSender, JoinUnwrap, Faults, QMax, Outcomes, BchThreshold, MaxFrames
+CONSTANTS W, Target, Epochs, KeepSender, JoinUnwrap, Faults, QMax, Outcomes, BchThreshold, MaxFrames, RQMax
 
 Workers == 1..W
 ErrRec == [be |-> -1, ok |-> FALSE, it |-> 0]       \* the Err(()) a worker sends when a stage fails (TLC cannot compare a record with a string)
@@ -42,6 +44,9 @@ Fold(seq, k) == FoldT(seq, k, BchThreshold)
     consumed = <<>>,                      \* history: results consumed in this epoch (hidden by VIEW)
     published = <<>>,                     \* final statistics pushed, one per finished epoch
     reports = <<>>,                       \* what the reporter channel received: "final" per epoch, "Finished"
+    rq = <<>>,                            \* the reporter channel as the CLI's Progress thread sees it: epoch numbers, 0 = Finished
+    lastRep = -1,                         \* Progress: Eb/N0 (epoch) of the last statistics it has seen
+    lines = <<>>,                         \* Progress: result lines written to the output file (one epoch number each)
     result = "running";                   \* "running" | "ok" | "error" | "panic"
 
   fair process (Collector = 0)
@@ -64,10 +69,13 @@ Fold(seq, k) == FoldT(seq, k, BchThreshold)
           r := Head(queue); queue := Tail(queue);
           if (r = ErrRec) { goto c_stop; }              \* a stage returned an error
           else { stats := Acc(stats, r); consumed := Append(consumed, r); }
-        }
+        };
+  c_report:                                            \* report!(..., final = false): only if the interval has elapsed
+        either { if (Len(rq) < RQMax) { rq := Append(rq, epoch); } } or { skip; }
       };
   c_stop:
       reports := Append(reports, "final");             \* report!(..., final = true)
+      rq := Append(rq, epoch);
       term := [w \in Workers |-> 1];                   \* try-send terminate to every worker (never blocks)
   c_join:
       await \A w \in Workers : wstate[w] \in {"ok", "err", "panic"};     \* join every worker
@@ -84,8 +92,31 @@ Fold(seq, k) == FoldT(seq, k, BchThreshold)
     };
   c_fin:
     reports := Append(reports, "Finished");
+    rq := Append(rq, 0);
     result := IF failed THEN "error" ELSE "ok";
   c_done:
+    skip;
+  }
+
+  \* src/cli/ber.rs Progress::work: one output-file line per Eb/N0, written when the Eb/N0 of the incoming statistics
+  \* changes or when Finished arrives (last_stats.unwrap() must not meet None)
+  fair process (Progress = -1)
+    variables x = 0;
+  {
+  p_loop:
+    while (TRUE) {
+      await rq # <<>>;
+      x := Head(rq); rq := Tail(rq);
+      if (x = 0) {
+        assert lastRep # -1;                             \* last_stats.unwrap()
+        lines := Append(lines, lastRep);
+        goto p_done;
+      } else {
+        if (lastRep # -1 /\ lastRep # x) { lines := Append(lines, lastRep); };
+        lastRep := x;
+      }
+    };
+  p_done:
     skip;
   }
 
@@ -115,14 +146,14 @@ Fold(seq, k) == FoldT(seq, k, BchThreshold)
     }
   }
 } *)
-\* BEGIN TRANSLATION (chksum(pcal) = "b2e136fe" /\ chksum(tla) = "abc34e7a")
+\* BEGIN TRANSLATION (chksum(pcal) = "56d76cc2" /\ chksum(tla) = "897b92e3")
 VARIABLES pc, queue, senders, term, wstate, epoch, stats, consumed, published, 
-          reports, result, r, failed
+          reports, rq, lastRep, lines, result, r, failed, x
 
 vars == << pc, queue, senders, term, wstate, epoch, stats, consumed, 
-           published, reports, result, r, failed >>
+           published, reports, rq, lastRep, lines, result, r, failed, x >>
 
-ProcSet == {0} \cup (Workers)
+ProcSet == {0} \cup {-1} \cup (Workers)
 
 Init == (* Global variables *)
         /\ queue = <<>>
@@ -134,11 +165,17 @@ Init == (* Global variables *)
         /\ consumed = <<>>
         /\ published = <<>>
         /\ reports = <<>>
+        /\ rq = <<>>
+        /\ lastRep = -1
+        /\ lines = <<>>
         /\ result = "running"
         (* Process Collector *)
         /\ r = ErrRec
         /\ failed = FALSE
+        (* Process Progress *)
+        /\ x = 0
         /\ pc = [self \in ProcSet |-> CASE self = 0 -> "c_epoch"
+                                        [] self = -1 -> "p_loop"
                                         [] self \in Workers -> "w_wait"]
 
 c_epoch == /\ pc[0] = "c_epoch"
@@ -153,14 +190,16 @@ c_epoch == /\ pc[0] = "c_epoch"
                  ELSE /\ pc' = [pc EXCEPT ![0] = "c_fin"]
                       /\ UNCHANGED << queue, senders, term, wstate, stats, 
                                       consumed >>
-           /\ UNCHANGED << epoch, published, reports, result, r, failed >>
+           /\ UNCHANGED << epoch, published, reports, rq, lastRep, lines, 
+                           result, r, failed, x >>
 
 c_loop == /\ pc[0] = "c_loop"
           /\ IF ErrorsForTermination(stats) < Target
                 THEN /\ pc' = [pc EXCEPT ![0] = "c_recv"]
                 ELSE /\ pc' = [pc EXCEPT ![0] = "c_stop"]
           /\ UNCHANGED << queue, senders, term, wstate, epoch, stats, consumed, 
-                          published, reports, result, r, failed >>
+                          published, reports, rq, lastRep, lines, result, r, 
+                          failed, x >>
 
 c_recv == /\ pc[0] = "c_recv"
           /\ queue # <<>> \/ senders = {}
@@ -174,16 +213,29 @@ c_recv == /\ pc[0] = "c_recv"
                                 /\ UNCHANGED << stats, consumed >>
                            ELSE /\ stats' = Acc(stats, r')
                                 /\ consumed' = Append(consumed, r')
-                                /\ pc' = [pc EXCEPT ![0] = "c_loop"]
-          /\ UNCHANGED << senders, term, wstate, epoch, published, reports, 
-                          result, failed >>
+                                /\ pc' = [pc EXCEPT ![0] = "c_report"]
+          /\ UNCHANGED << senders, term, wstate, epoch, published, reports, rq, 
+                          lastRep, lines, result, failed, x >>
+
+c_report == /\ pc[0] = "c_report"
+            /\ \/ /\ IF Len(rq) < RQMax
+                        THEN /\ rq' = Append(rq, epoch)
+                        ELSE /\ TRUE
+                             /\ rq' = rq
+               \/ /\ TRUE
+                  /\ rq' = rq
+            /\ pc' = [pc EXCEPT ![0] = "c_loop"]
+            /\ UNCHANGED << queue, senders, term, wstate, epoch, stats, 
+                            consumed, published, reports, lastRep, lines, 
+                            result, r, failed, x >>
 
 c_stop == /\ pc[0] = "c_stop"
           /\ reports' = Append(reports, "final")
+          /\ rq' = Append(rq, epoch)
           /\ term' = [w \in Workers |-> 1]
           /\ pc' = [pc EXCEPT ![0] = "c_join"]
           /\ UNCHANGED << queue, senders, wstate, epoch, stats, consumed, 
-                          published, result, r, failed >>
+                          published, lastRep, lines, result, r, failed, x >>
 
 c_join == /\ pc[0] = "c_join"
           /\ \A w \in Workers : wstate[w] \in {"ok", "err", "panic"}
@@ -201,30 +253,61 @@ c_join == /\ pc[0] = "c_join"
                                 /\ UNCHANGED failed
                      /\ pc' = [pc EXCEPT ![0] = "c_epoch"]
                      /\ UNCHANGED result
-          /\ UNCHANGED << queue, term, wstate, stats, consumed, reports, r >>
+          /\ UNCHANGED << queue, term, wstate, stats, consumed, reports, rq, 
+                          lastRep, lines, r, x >>
 
 c_fin == /\ pc[0] = "c_fin"
          /\ reports' = Append(reports, "Finished")
+         /\ rq' = Append(rq, 0)
          /\ result' = IF failed THEN "error" ELSE "ok"
          /\ pc' = [pc EXCEPT ![0] = "c_done"]
          /\ UNCHANGED << queue, senders, term, wstate, epoch, stats, consumed, 
-                         published, r, failed >>
+                         published, lastRep, lines, r, failed, x >>
 
 c_done == /\ pc[0] = "c_done"
           /\ TRUE
           /\ pc' = [pc EXCEPT ![0] = "Done"]
           /\ UNCHANGED << queue, senders, term, wstate, epoch, stats, consumed, 
+                          published, reports, rq, lastRep, lines, result, r, 
+                          failed, x >>
+
+Collector == c_epoch \/ c_loop \/ c_recv \/ c_report \/ c_stop \/ c_join
+                \/ c_fin \/ c_done
+
+p_loop == /\ pc[-1] = "p_loop"
+          /\ rq # <<>>
+          /\ x' = Head(rq)
+          /\ rq' = Tail(rq)
+          /\ IF x' = 0
+                THEN /\ Assert(lastRep # -1, 
+                               "Failure of assertion at line 111, column 9.")
+                     /\ lines' = Append(lines, lastRep)
+                     /\ pc' = [pc EXCEPT ![-1] = "p_done"]
+                     /\ UNCHANGED lastRep
+                ELSE /\ IF lastRep # -1 /\ lastRep # x'
+                           THEN /\ lines' = Append(lines, lastRep)
+                           ELSE /\ TRUE
+                                /\ lines' = lines
+                     /\ lastRep' = x'
+                     /\ pc' = [pc EXCEPT ![-1] = "p_loop"]
+          /\ UNCHANGED << queue, senders, term, wstate, epoch, stats, consumed, 
                           published, reports, result, r, failed >>
 
-Collector == c_epoch \/ c_loop \/ c_recv \/ c_stop \/ c_join \/ c_fin
-                \/ c_done
+p_done == /\ pc[-1] = "p_done"
+          /\ TRUE
+          /\ pc' = [pc EXCEPT ![-1] = "Done"]
+          /\ UNCHANGED << queue, senders, term, wstate, epoch, stats, consumed, 
+                          published, reports, rq, lastRep, lines, result, r, 
+                          failed, x >>
+
+Progress == p_loop \/ p_done
 
 w_wait(self) == /\ pc[self] = "w_wait"
                 /\ wstate[self] = "run"
                 /\ pc' = [pc EXCEPT ![self] = "w_poll"]
                 /\ UNCHANGED << queue, senders, term, wstate, epoch, stats, 
-                                consumed, published, reports, result, r, 
-                                failed >>
+                                consumed, published, reports, rq, lastRep, 
+                                lines, result, r, failed, x >>
 
 w_poll(self) == /\ pc[self] = "w_poll"
                 /\ IF term[self] = 1
@@ -245,15 +328,17 @@ w_poll(self) == /\ pc[self] = "w_poll"
                                  /\ queue' = queue
                 /\ pc' = [pc EXCEPT ![self] = "w_wait"]
                 /\ UNCHANGED << term, epoch, stats, consumed, published, 
-                                reports, result, r, failed >>
+                                reports, rq, lastRep, lines, result, r, failed, 
+                                x >>
 
 Worker(self) == w_wait(self) \/ w_poll(self)
 
-Next == Collector
+Next == Collector \/ Progress
            \/ (\E self \in Workers: Worker(self))
 
 Spec == /\ Init /\ [][Next]_vars
         /\ WF_vars(Collector)
+        /\ WF_vars(Progress)
         /\ \A self \in Workers : WF_vars(Worker(self))
 
 \* END TRANSLATION 
